@@ -988,6 +988,37 @@ func (c *Ctx) adp(which map[string]bool) {
 			}
 		}
 		wr.done(1, "every warning is stored through the pointer parameter or returned")
+		// … and AdoptSession hands out what it collected on every exit, the fatal
+		// ones included: the damaged records were deleted by then, a second call
+		// has nothing left to report
+		if ad := c.Fn("ADP-8", "AdoptSession"); ad != nil {
+			rw := c.acc("ADP-8", ad, "every-return-carries-the-warnings-collected-so-far")
+			for _, p := range c.Paths("ADP-8", ad) {
+				if p.End != pathx.KReturn {
+					continue
+				}
+				last := len(p.Events) - 1
+				rs := p.Events[last].Results
+				if len(rs) < 3 {
+					continue
+				}
+				warned := false
+				for i := range p.Events {
+					if isAppendTo(&p.Events[i], "[]error") || (p.Events[i].Kind == pathx.KCall && p.Events[i].Callee == clean) {
+						warned = true
+					}
+				}
+				if !warned {
+					continue
+				}
+				if pathx.IsNilConst(rs[1]) {
+					rw.fail(p, last, "AdoptSession returns nil in place of the warnings on a path that may have collected some: records it deleted or dropped are never reported")
+				} else {
+					rw.pass()
+				}
+			}
+			rw.done(1, "no return behind a possible warning replaces the list by nil")
+		}
 		adj2 := c.acc("ADP-8", clean, "scan-decides-adjacency-exactly(test-vectors)")
 		c.adp8Adjacency(clean, adj2)
 		adj2.done(12, "for each representative pair an iteration keeps adjacent records and reports a gap otherwise")
